@@ -14,11 +14,11 @@ def dfltNode (d : Option Nat) (k : Nat) : Nat :=
   | some x => x
   | none => k
 
-theorem tr_switch (fuel : Nat) (env : Src.Env) (hdr : Ev) (CS : Src.Cases) (k : Nat) (b : Src.B) :
-    Src.tr fuel [] env (.switch hdr CS) k b =
-      ((Src.trCases fuel [] (brkEnv env k) CS k (tbl b).length (b.push (.halt (evInvalid "switch default"))).1).1.set (tbl b).length
-        (.silent (dfltNode (Src.trCases fuel [] (brkEnv env k) CS k (tbl b).length (b.push (.halt (evInvalid "switch default"))).1).2.2.2 k))).push
-        (.emit (Src.substEv env.subst hdr) (Src.trCases fuel [] (brkEnv env k) CS k (tbl b).length (b.push (.halt (evInvalid "switch default"))).1).2.2.1) := by
+theorem tr_switch (fuel : Nat) (sm : List Src.Macro) (env : Src.Env) (hdr : Ev) (CS : Src.Cases) (k : Nat) (b : Src.B) :
+    Src.tr fuel sm env (.switch hdr CS) k b =
+      ((Src.trCases fuel sm (brkEnv env k) CS k (tbl b).length (b.push (.halt (evInvalid "switch default"))).1).1.set (tbl b).length
+        (.silent (dfltNode (Src.trCases fuel sm (brkEnv env k) CS k (tbl b).length (b.push (.halt (evInvalid "switch default"))).1).2.2.2 k))).push
+        (.emit (Src.substEv env.subst hdr) (Src.trCases fuel sm (brkEnv env k) CS k (tbl b).length (b.push (.halt (evInvalid "switch default"))).1).2.2.1) := by
   rw [Src.tr]; rfl
 
 theorem switchHdrOp_shape {hdr : Hdr} {s : St} {o : Op} {s' : St} (h : switchHdrOp hdr s = .ok (o, s')) :
@@ -37,7 +37,7 @@ theorem switchHdrOp_shape {hdr : Hdr} {s : St} {o : Op} {s' : St} (h : switchHdr
 theorem switch_pm (cx : Cx) (fuel : Nat) (env : Src.Env) (he : EnvOK cx env) (hdr : Hdr) (cs : Cases)
     (run : Nat → List BP → SwSt → M SwSt) (hn : nameOK hdr.name = true) (hne : Beh.endsFlow hdr.name = false)
     (hdef : countDefaults cs ≤ 1) (hrun : CasesC cx fuel hdr.name true cs run) :
-    PM cx (switchOf hdr cs run) (fun k b => Src.tr fuel [] env (.switch (hdrEv hdr) (toSrcCases hdr.name cs)) k b) env := by
+    PM cx (switchOf hdr cs run) (fun k b => Src.tr fuel cx.sm env (.switch (hdrEv hdr) (toSrcCases hdr.name cs)) k b) env := by
   intro s items s' h
   have hnr : hdr.name ≠ Gen.op_return := by
     intro e; rw [e, ctl_names.2.2.2.1] at hne; cases hne
@@ -53,12 +53,12 @@ theorem switch_pm (cx : Cx) (fuel : Nat) (env : Src.Env) (he : EnvOK cx env) (hd
     obtain ⟨e3, o0, rfl⟩ := switchHdrOp_shape h3
     have hstk : SameStk s s' := ((sameStk_tickedLbl s 1).trans (sameStk_tickedLbl _ 1)).trans e3
     simp only [nameOK, Bool.and_eq_true, Bool.not_eq_true'] at hn
-    have htr : ∀ k b, Src.tr fuel [] env (.switch (hdrEv hdr) (toSrcCases hdr.name .nil)) k b =
+    have htr : ∀ k b, Src.tr fuel cx.sm env (.switch (hdrEv hdr) (toSrcCases hdr.name .nil)) k b =
         (((b.push (.halt (evInvalid "switch default"))).1.set (tbl b).length (.silent k)).push (.emit (Src.substEv env.subst (hdrEv hdr)) (tbl b).length)) := by
       intro k b
-      rw [tr_switch fuel env]
+      rw [tr_switch fuel cx.sm env]
       simp only [toSrcCases, trCases_nil, dfltNode]
-    have hgrow : ∀ k b, Grow cx.Z b (Src.tr fuel [] env (.switch (hdrEv hdr) (toSrcCases hdr.name .nil)) k b).1 := by
+    have hgrow : ∀ k b, Grow cx.Z b (Src.tr fuel cx.sm env (.switch (hdrEv hdr) (toSrcCases hdr.name .nil)) k b).1 := by
       intro k b
       rw [htr]
       exact ((Grow.push b _).set_ge (Nat.le_refl _) _).trans (Grow.push _ _)
@@ -136,8 +136,8 @@ theorem switch_pm (cx : Cx) (fuel : Nat) (env : Src.Env) (he : EnvOK cx env) (hd
   generalize hD : rr.defaultOps = D at hS nnD
   have nnD' : NoNone D := nnD nn0
   generalize hEL : (s.tickedLbl 1).lbc + 1 = eL at *
-  have htr := fun k b => tr_switch fuel env (hdrEv hdr) (toSrcCases hdr.name (.cons d0 n0 ps0 b0 r0)) k b
-  have hgrow : ∀ k b, Grow cx.Z b (Src.tr fuel [] env (.switch (hdrEv hdr) (toSrcCases hdr.name (.cons d0 n0 ps0 b0 r0))) k b).1 := by
+  have htr := fun k b => tr_switch fuel cx.sm env (hdrEv hdr) (toSrcCases hdr.name (.cons d0 n0 ps0 b0 r0)) k b
+  have hgrow : ∀ k b, Grow cx.Z b (Src.tr fuel cx.sm env (.switch (hdrEv hdr) (toSrcCases hdr.name (.cons d0 n0 ps0 b0 r0))) k b).1 := by
     intro k b
     rw [htr]
     exact (((Grow.push b _).trans (hS.grow k _ _)).set_ge (Nat.le_refl _) _).trans (Grow.push _ _)
@@ -158,10 +158,10 @@ theorem switch_pm (cx : Cx) (fuel : Nat) (env : Src.Env) (he : EnvOK cx env) (hd
   have cT := fun pC (h1 : Placed cx.cp cx.rs r (i0 + 1) Hn) (h2 : Placed cx.cp cx.rs r pC Cn) =>
     hS.corr k (tbl b).length r (i0 + 1) pC h1 h2 (b.push (.halt (evInvalid "switch default"))).1
   have hdfl : hasDefault (.cons d0 n0 ps0 b0 r0) = true →
-      (Src.trCases fuel [] (brkEnv env k) (toSrcCases hdr.name (.cons d0 n0 ps0 b0 r0)) k (tbl b).length
+      (Src.trCases fuel cx.sm (brkEnv env k) (toSrcCases hdr.name (.cons d0 n0 ps0 b0 r0)) k (tbl b).length
         (b.push (.halt (evInvalid "switch default"))).1).2.2.2 ≠ none :=
-    trCases_hasdefault fuel (brkEnv env k) hdr.name _ k _ _
-  generalize hT : Src.trCases fuel [] (brkEnv env k) (toSrcCases hdr.name (.cons d0 n0 ps0 b0 r0)) k (tbl b).length
+    trCases_hasdefault fuel cx.sm (brkEnv env k) hdr.name _ k _ _
+  generalize hT : Src.trCases fuel cx.sm (brkEnv env k) (toSrcCases hdr.name (.cons d0 n0 ps0 b0 r0)) k (tbl b).length
     (b.push (.halt (evInvalid "switch default"))).1 = T at hag gT cT hdfl ⊢
   -- the node table
   obtain ⟨a1, a2⟩ := tbl_push (T.1.set (tbl b).length (.silent (dfltNode T.2.2.2 k))) (.emit (Src.substEv env.subst (hdrEv hdr)) T.2.2.1)
